@@ -78,15 +78,17 @@ pub fn run_trials<F>(seed: u64, n: u64, nstat: usize, f: F) -> Vec<Acc>
 where
     F: Fn(&mut Rng, &mut [f64]) + Sync,
 {
-    let nchunks = n.div_ceil(CHUNK);
+    // chunk size depends on n only (deterministic); small runs use small chunks so that all cores work
+    let chunk = (n / 128).clamp(1, CHUNK);
+    let nchunks = n.div_ceil(chunk);
     (0..nchunks)
         .into_par_iter()
         .map(|c| {
             let mut rng = rng_from(mix(&[seed, c]));
             let mut accs = vec![Acc::new(); nstat];
             let mut out = vec![0f64; nstat];
-            let lo = c * CHUNK;
-            let hi = ((c + 1) * CHUNK).min(n);
+            let lo = c * chunk;
+            let hi = ((c + 1) * chunk).min(n);
             for _ in lo..hi {
                 f(&mut rng, &mut out);
                 for i in 0..nstat {
